@@ -234,7 +234,7 @@ def slim(case):
 
 
 def run_shard(ctx):
-    for i in range(ncases(ctx.tier)):
+    for i in ctx.cases(ncases(ctx.tier)):
         case = gen_case(ctx.rng(i), i)
         viol, nt = one_case(ctx, case)
         rec = {"regen": [ctx.seed, ctx.shard, i]} if case.get("stat") else case
